@@ -716,7 +716,7 @@ def run(ctx):
     # missing / uncompilable members
     kinds_pool = [k for k in itertools.product(["ok", "missing", "bad"], repeat=3) if k != ("ok", "ok", "ok")]
     base = list(all_edge_sets(4))
-    for _ in range(80 if quick else 2500):
+    for _ in range(80 if quick else 1500):
         es = rng.choice(base)
         kinds = ["ok"] + list(rng.choice(kinds_pool))
         shapes.append(shape_program(es, rng.random() < 0.6, kinds))
@@ -724,7 +724,7 @@ def run(ctx):
     nshapes = len(shapes)
     # 3. random programs
     g = Gen(rng)
-    rnd = [g.program() for _ in range(360 if quick else 7000)]
+    rnd = [g.program() for _ in range(360 if quick else 4000)]
     ch.check(rnd, "random", "random")
     # shrink the first genuine violation
     fam = [v for v in ctx.violations if v.get("family")]
